@@ -48,26 +48,17 @@ Definition C06_only_carried_name_open : Prop :=
                     /\ n = strip_dot (sub data p (p + (b1 * 256 + b2))).
 
 (* ---------------------------------------------------------------- never out of bounds *)
-(* Full statement: for ALL byte strings the extractor stays inside its slice. *)
-Definition C06_tls_no_oob_full : Prop := forall data : bytes, extract_sni_strict data <> Oob.
-
-(* It is FALSE of the faithful model: a server_name extension whose header ends one byte before the
-   end of the extension block makes findSniExtension execute search.Range(i+4, i+6) one byte past
-   the slice (tls.go: the loop guard is i+4 >= Len, the read needs i+6 <= Len). *)
-Theorem C06_tls_no_oob_refuted : exists data : bytes, extract_sni_strict data = Oob.
-Proof. exact C06_tls_no_oob_refuted_proof. Qed.
-Print Assumptions C06_tls_no_oob_refuted.
-
-(* What does hold for ALL byte strings: with at least one byte of capacity behind the slice there
-   is no panic; the only out-of-bounds access is that one-byte over-read, and it never produces a
-   name (the outcome is NotApplicable); the loops terminate. *)
+(* For ALL byte strings the extractor stays inside its slice even when no capacity follows it (the
+   strict locator reports every access past the record as Oob), never exhausts its fuel, and a
+   slice with spare capacity behaves identically.  (Before fix 86bfe56 this was false: a server_name
+   extension header one byte before the end of the extension block was read one byte past the
+   record; the witness is now a regression input in corpus/C06.) *)
 (* OPEN: stated at full strength, not yet proved; re-observed on every generated case (model = spec). *)
-Definition C06_tls_no_oob_partial_open : Prop :=
+Definition C06_tls_no_oob_open : Prop :=
   forall (data slack : bytes),
-    (slack <> [] -> extract_sni_bytes data slack <> Oob)
-    /\ (extract_sni_strict data = Oob -> slack <> [] -> extract_sni_bytes data slack = NotApplicable)
-    /\ (extract_sni_strict data <> Oob -> extract_sni_bytes data slack = extract_sni_strict data)
-    /\ extract_sni_bytes data slack <> OutOfFuel.
+    extract_sni_strict data <> Oob
+    /\ extract_sni_bytes data slack = extract_sni_strict data
+    /\ extract_sni_strict data <> OutOfFuel.
 
 (* The QUIC-side locator never indexes outside a fragment, for ALL fragment lists. *)
 (* OPEN: stated at full strength, not yet proved; re-observed on every generated case (model = spec). *)
@@ -124,30 +115,26 @@ Theorem C06_udp_data_exact :
 Proof. exact C06_udp_data_exact_proof. Qed.
 Print Assumptions C06_udp_data_exact.
 
-(* Full statement: also the Read path of the sniffer hands over buffered bytes and then the
-   connection, after every outcome. *)
-Definition C06_usable_after_timeout_full : Prop :=
+(* The Read path of the sniffer hands over the buffered bytes and then the connection, exactly like
+   the other two drains, after every outcome in which the connection itself has not failed - in
+   particular after a sniff timeout (fix 9ef4b71; before it Sniffer.dataError kept the timeout). *)
+Theorem C06_usable_after_timeout :
   forall (script : list rd) (p : N),
     let '(r, st, rest) := sniff_tcp script in
-    blen (s_buf st) <= p -> relay_read_all p st rest = relay_prefix_copy st rest.
+    r <> IoError -> relay_read_all p st rest = relay_prefix_copy st rest.
+Proof. exact C06_usable_after_timeout_proof. Qed.
+Print Assumptions C06_usable_after_timeout.
 
-(* FALSE of the faithful model: after a sniff timeout Sniffer.dataError stays set and the first relay
-   Read returns it although the connection is healthy and more data follows. *)
-Theorem C06_usable_after_timeout_refuted :
-  exists (script : list rd) (p : N),
-    let '(r, st, rest) := sniff_tcp script in
-    r = TimedOut /\ blen (s_buf st) <= p /\ relay_read_all p st rest <> relay_prefix_copy st rest.
-Proof. exact C06_usable_after_timeout_refuted_proof. Qed.
-Print Assumptions C06_usable_after_timeout_refuted.
-
-(* What holds: the Read path is exact after every outcome except timeout / i/o error. *)
-Theorem C06_usable_after_timeout_partial :
-  forall (script : list rd) (p : N),
-    let '(r, st, rest) := sniff_tcp script in
-    r <> TimedOut -> r <> IoError ->
-    relay_read_all p st rest = relay_prefix_copy st rest.
-Proof. exact C06_usable_after_timeout_partial_proof. Qed.
-Print Assumptions C06_usable_after_timeout_partial.
+(* non-vacuity of the timeout case: a partial record, the deadline passes, the client goes on *)
+Example C06_usable_after_timeout_nonvacuous :
+  let script := [ {| rd_window := 4096; rd_data := [22; 3; 1; 0; 100; 1; 0]; rd_status := RsOk |};
+                  {| rd_window := 4089; rd_data := []; rd_status := RsTimeout |};
+                  {| rd_window := 32768; rd_data := [1; 2]; rd_status := RsOk |};
+                  {| rd_window := 32768; rd_data := []; rd_status := RsEof |} ] in
+  fst (fst (sniff_tcp script)) = TimedOut
+  /\ (let '(r, st, rest) := sniff_tcp script in relay_read_all 32768 st rest)
+     = ([22; 3; 1; 0; 100; 1; 0; 1; 2], RsEof).
+Proof. exact C06_usable_after_timeout_nonvacuous_proof. Qed.
 
 (* ---------------------------------------------------------------- non-vacuity *)
 Example C06_nonvacuous :
